@@ -1596,3 +1596,7 @@ mod tests {
           //     assert_eq!(format!("{:?}", tx), "SyncSender { .. }");
           // }*/
 }
+
+#[cfg(kani)]
+#[path = "/verif/harness/may/sync_spsc.rs"]
+mod verif_kani;
